@@ -588,7 +588,7 @@ func checkC14(r *mon.Run) {
 			all = append(all, refdev.Node{Kind: "hd", PartNum: 1, PartFormat: byte(f), SigType: byte(f)}.Encode()...)
 		}
 		all = append(all, 0x7f, 0xff, 4, 0)
-		conc = append([]hostile{{all, "hd-all-unknown-formats", "", "", "devicepath"}}, conc...)
+		conc = append([]hostile{{all, "hd-all-unknown-formats", "", "", "devicepath"}, {all, "hd-all-unknown-formats", "", "", "devicepath"}, {all, "hd-all-unknown-formats", "", "", "devicepath"}}, conc...)
 		if len(conc) > 12 {
 			conc = conc[:12]
 		}
@@ -721,7 +721,17 @@ func checkC14(r *mon.Run) {
 	for i, j := range concJobs {
 		cc[i] = WCase{Entry: j.entry, In: j.h.in, P: j.p}
 	}
+	// the concurrency cases run in the -race build when check.sh provided one
+	if rb := os.Getenv("VCHECK_RACE_BIN"); rb != "" {
+		os.Setenv("VCHECK_WORKER_BIN", rb)
+		os.Setenv("GORACE", "halt_on_error=1 exitcode=66")
+		os.Setenv("VCHECK_NO_RLIMIT", "1")
+		r.Set("concurrent_format_cases_run_under_race_detector", true)
+	}
 	res = append(res, runBatches(r, cc, 1, 12)...)
+	os.Unsetenv("VCHECK_WORKER_BIN")
+	os.Unsetenv("GORACE")
+	os.Unsetenv("VCHECK_NO_RLIMIT")
 	jobs = append(jobs, concJobs...)
 	perEntry := map[string]int{}
 	for i, j := range jobs {
